@@ -12,6 +12,21 @@ CHECKS = {
  "C19": ("model_checking", "bounded-exhaustive enumeration of operation sequences and slicing geometries on the real encoder/decoder",
          "All sequences of typed writes over an 8-letter alphabet (8/16/32/64/128-bit, 1- and 3-byte raw writes, alignment skips) up to length 5 (quick) / 7 (thorough) are encoded and read back with the matching reads, checking values, per-operation offset advance and alignment targets; all slicing geometries prefix 0..16 x length 0..24 x rewind x inner offset at nesting depth 1..3, with alignment measured from the start of the message; Header.Decode on every truncation 0..12 for fresh, advanced and sliced decoders.",
          "Values come from a position-dependent pattern with five boundary variants on the last operation (the primitives only move bytes). Longer sequences rest on the offset being the only state of the encoder/decoder, which ranges over all residues mod 8 within the bound.", "4/C19"),
+ "C01": ("model_checking", "bounded-exhaustive enumeration of builder-operation histories on the real constructors/encoders (shape explorer)",
+         "Every controller-originated message kind and command/type variant is built through the public constructors and adders over the shape corpus (every single action of an extended alphabet incl. all 64 NAT presence subsets, all learn-spec forms x 12 bit counts, note lengths of every residue; all ordered pairs of the 25 buildable action kinds in 5 containers; match-field, instruction and bucket pairs; bundle-add nesting depth 2; payloads up to the 65528/65535 boundary; thorough adds all triples over residue-complete subsets), each under up to 7 builder histories (append/prepend pivots, interleavings, size queries between steps, alternative constructors). Oracle needs no reference: version byte 4, type code of the kind, header length = bytes produced = Len() before and after, recursively for the message embedded in a bundle-add; results handed out earlier must not change when later messages are encoded.",
+         "Compositional reduction (DESIGN 3.3): containers use children only through Len() and bytes, so list arithmetic depends on children only through their size; the instrumenter reports any type switch inside an encoder. Field values other than those affecting size are C03's subject.", "4/C01"),
+ "C02": ("model_checking", "bounded-exhaustive enumeration of builder histories, each encoding walked by an independent TLV walker of the OF1.3/Nicira grammar",
+         "Same state space as C01 (shape corpus x builder histories). Every encoding is walked by engine/wire's strict decoder, which uses only declared lengths and the code tables of DESIGN Appendix A: every match, OXM TLV, instruction, standard/Nicira action (also nested in conntrack), bucket, hello element, learn spec, TLV map and bundled message must declare exactly its extent, be 8-aligned where required, be zero padded, carry a defined code with the length that code requires, and the walk must end at the header length; the walker must visit exactly the elements that were added.",
+         "The walker is written from the specification text (Appendix A), not from the library; its own tests (round trip over 20k corpus trees, byte vectors in OVS format) run in setup. OXM fields 41-43 (OpenFlow 1.4/1.5 numbers OVS accepts on 1.3) are accepted.", "4/C02"),
+ "C03": ("model_checking", "bounded-exhaustive enumeration of shapes and one-field-off-base values, library encoding compared byte for byte with an independent reference encoder",
+         "For every tree of the shape corpus under all builder histories, and for every scalar/fixed-width byte field of ~150 base messages varied alone over its whole value alphabet (0, 1, all-ones, top bit, pattern, every single bit, two seed-derived values; Appendix B), the bytes produced by the library for the value built through the API must equal the reference encoding of the same model tree (transaction ids masked); the reference field map names the first differing field.",
+         "Bit-independence argument (encoders only move bits) for simultaneous values in several fields; delete flow-mods/group-mods carry no instructions/buckets as the library's Len() defines. Reference encoder: engine/wire, from Appendix A.", "4/C03"),
+ "C06": ("model_checking", "bounded-exhaustive enumeration of shapes; sizes and child embedding checked on the real encoders at every nesting level",
+         "Every element of every tree of the shape corpus is built standalone: Len() before and after encoding equals the bytes produced; every container's bytes must contain its children's standalone encodings contiguously, in order, followed only by the specified zero padding (flow-mod: match+instructions; instruction/bucket/conntrack/packet-out: actions (+payload); match: fields; OXM TLV: header+value+mask payloads; learn action: specs; learn spec: header+source+destination; set-field/reg-load2: field; bundle-add: embedded message); earlier results must not change when later values are encoded. Packet-header kinds are sized over the packet corpus.",
+         "No reference encoder is involved: children are encoded by the library standalone and searched for in the parent.", "4/C06"),
+ "C13": ("model_checking", "exhaustive enumeration of operation sequences over {Len, Marshal, wrap, decode} on fresh instances (history-independence oracle)",
+         "For every standalone element of the extended alphabets and every message of the corpus, every sequence up to length 3 (quick) / 4 (thorough) over {L=Len(), M=MarshalBinary(), W=size+encode through an enclosing wrapper (bundle-add, instruction, match, flow-mod, group-mod), D=encode+decode into a fresh receiver+dump} runs on a fresh instance rebuilt from its builder recipe; every observation must equal what the same operation yields first on a fresh instance. The full message corpus runs at depth 2.",
+         "A write-back is acceptable exactly when it is invisible to these observations. Transaction ids are masked (each instance draws its own).", "4/C13"),
 }
 ORDER = ["C%02d" % i for i in range(1, 20)]
 NA = {}
